@@ -33,11 +33,12 @@ def replay_cli(tsh):
     missing = sorted(u for u in used if u not in declared and not re.search(r'^func %s\b' % re.escape(u), go, re.M))
     return bool(missing), 'goml `%s`: the emitted Go uses %s without declaring %s' % (src.replace('\n', ' | '), sorted(used), missing) if missing else 'all helper types declared: ' + (go[:120].replace('\n', ' | ') or p.stderr[:200])
 
-def ob_helper_types(r, tier, seed, top, inner, depth, vec_len=(1, 2)):
+POSITIONS = ['param', 'ret', 'let', 'if-then', 'if-else', 'match-arm', 'match-default', 'while-body', 'call-arg']
+def ob_helper_types(r, tier, seed, top, inner, depth, vec_len=(1, 2), positions=('param',)):
     W = e2.fresh_world(CRATES); tt = W.tt; TY = tt.find_adt(['tast', 'Ty'], 'compiler')
     AFN = tt.find_adt(['anf', 'Fn'], 'compiler'); AFILE = tt.find_adt(['anf', 'File'], 'compiler'); AE = tt.find_adt(['anf', 'AExpr'], 'compiler')
     CE = tt.find_adt(['anf', 'CExpr'], 'compiler'); IE = tt.find_adt(['anf', 'ImmExpr'], 'compiler'); PR = tt.find_adt(['common', 'Prim'], 'compiler')
-    r.bounds = 'a function with one parameter of every concrete type of depth <= %d: top constructor in %s, inner in %s, leaves int32 / bool / struct A, component lists of %d..%d' % (depth, top, inner, vec_len[0], vec_len[1])
+    r.bounds = 'a function in which a value of the type occurs at one of the positions %s (solver decision); ' % list(positions) + 'the type ranges over every concrete type of depth <= %d: top constructor in %s, inner in %s, leaves int32 / bool / struct A, component lists of %d..%d' % (depth, top, inner, vec_len[0], vec_len[1])
     r.assumptions = ['oracle: every tuple type and every reference type that occurs at any position of the parameter type is in the sets returned by collect_runtime_types (the types the backend declares)',
                      'the body is `()`; only the signature carries the type']
     class S2(Spec):
@@ -50,17 +51,37 @@ def ob_helper_types(r, tier, seed, top, inner, depth, vec_len=(1, 2)):
         unit_ty = Agg(TY.key, TY.vindex('TUnit'), [])
         imm = Agg(IE.key, IE.vindex('ImmPrim'), [Agg(PR.key, PR.vindex('Unit'), [UNIT]), unit_ty])
         body = Agg(AE.key, AE.vindex('ACExpr'), [Agg(CE.key, CE.vindex('CImm'), [imm])])
-        fn = Agg(AFN.key, 0, [{'name': mkstr('use_it'), 'params': PyVec([Agg('tuple', 0, [mkstr('x'), t])]), 'ret_ty': unit_ty, 'body': body}[f[0]] for f in AFN.variants[0].fields])
+        pos = ex.choose([(True, p_) for p_ in positions]) if len(positions) > 1 else positions[0]
+        ARM = tt.find_adt(['anf', 'Arm'], 'compiler'); bool_ty = Agg(TY.key, TY.vindex('TBool'), []); i32 = Agg(TY.key, TY.vindex('TInt32'), [])
+        A = lambda n, *f: Agg(AE.key, AE.vindex(n), list(f)); C = lambda n, **kw: Agg(CE.key, CE.vindex(n), [kw[fl[0]] for fl in CE.variants[CE.vindex(n)].fields])
+        var = lambda n, ty: Agg(IE.key, IE.vindex('ImmVar'), [mkstr(n), ty])
+        unit_a = body
+        use = A('ALet', mkstr('tmp'), mkbox(C('CImm', imm=var('q', t))), mkbox(unit_a), unit_ty)        # let tmp: T = q in ()
+        params = []; ret = unit_ty
+        if pos == 'param': params = [Agg('tuple', 0, [mkstr('x'), t])]
+        elif pos == 'ret': ret = t; body = A('ACExpr', C('CImm', imm=var('q', t)))
+        elif pos == 'let': body = use
+        elif pos in ('if-then', 'if-else'):
+            body = A('ACExpr', C('EIf', cond=mkbox(var('c', bool_ty)), then=mkbox(use if pos == 'if-then' else unit_a), else_=mkbox(use if pos == 'if-else' else unit_a), ty=unit_ty))
+        elif pos in ('match-arm', 'match-default'):
+            lit = Agg(IE.key, IE.vindex('ImmPrim'), [Agg(PR.key, PR.vindex('Int32'), [1]), i32])
+            body = A('ACExpr', C('EMatch', expr=mkbox(var('n', i32)), arms=PyVec([Agg(ARM.key, 0, [lit, use if pos == 'match-arm' else unit_a])]), default=ms.some(mkbox(use if pos == 'match-default' else unit_a)), ty=unit_ty))
+        elif pos == 'while-body':
+            body = A('ACExpr', C('EWhile', cond=mkbox(A('ACExpr', C('CImm', imm=var('c', bool_ty)))), body=mkbox(use), ty=unit_ty))
+        elif pos == 'call-arg':
+            fty = Agg(TY.key, TY.vindex('TFunc'), [PyVec([t]), mkbox(unit_ty)])
+            body = A('ACExpr', C('ECall', func=var('g', fty), args=PyVec([var('q', t)]), ty=unit_ty))
+        fn = Agg(AFN.key, 0, [{'name': mkstr('use_it'), 'params': PyVec(params), 'ret_ty': ret, 'body': body}[f[0]] for f in AFN.variants[0].fields])
         h = {0: Agg(AFILE.key, 0, [PyVec([fn])])}
         res = ex.call('go::compile::collect_runtime_types', [Ref(h, 0)])
         sets = [[shape(x, TY) for x in (s_.elems if isinstance(s_, PySet) else s_.keys)] for s_ in res.fields]
-        return tsh, sets
+        return tsh, sets, pos
     res = e2.explore(r, W, entry, [])
     found = {}
     for p in res:
         r.cases += 1
         if p.kind != 'ok': found.setdefault('panic', ('collect_runtime_types panics: %s' % p.value, None)); continue
-        tsh, (tuples, arrays, refs) = p.value
+        tsh, (tuples, arrays, refs), pos = p.value
         need_t = [s_ for s_ in subterms(tsh) if s_['k'] == 'TTuple']; need_r = [s_ for s_ in subterms(tsh) if s_['k'] == 'TRef']
         if need_t or need_r: r.nontrivial += 1
         miss = [s_ for s_ in need_t if s_ not in tuples] + [s_ for s_ in need_r if s_ not in refs]
@@ -72,8 +93,8 @@ def ob_helper_types(r, tier, seed, top, inner, depth, vec_len=(1, 2)):
                     r_ = hidden_under(x, target, sh['k'])
                     if r_ is not None: return r_
                 return None
-            key = 'helper-type-not-collected:under-' + str(hidden_under(tsh, miss[0]))
-            found.setdefault(key, ('the parameter type %s contains %s, which collect_runtime_types does not return (no Go declaration is emitted for it)' % (goml_ty(tsh), goml_ty(miss[0])), tsh))
+            key = 'helper-type-not-collected:under-' + str(hidden_under(tsh, miss[0])) + ('' if pos == 'param' else ':at-' + pos)
+            found.setdefault(key, ('a value of type %s at position `%s` mentions %s, which collect_runtime_types does not return (no Go declaration is emitted for it)' % (goml_ty(tsh), pos, goml_ty(miss[0])), tsh if pos == 'param' else None))
         elif len(r.samples) < 3 and (need_t or need_r): r.samples.append({'type': goml_ty(tsh), 'tuples': len(tuples), 'refs': len(refs)})
     for key, (what, w) in found.items():
         ok_, detail = True, 'sets returned by the real collect_runtime_types MIR'
@@ -84,7 +105,8 @@ def ob_helper_types(r, tier, seed, top, inner, depth, vec_len=(1, 2)):
 
 def obligations():
     comp = ['TTuple', 'TArray', 'TVec', 'TRef', 'TFunc']
-    return [Ob('O2.1-helper-types-d2', 'every tuple / reference type inside a signature type is collected for declaration: depth 2', ob_helper_types, ('quick', 'thorough'), 5, dict(top=comp, inner=comp + ['TInt32'], depth=2, vec_len=(1, 1))),
+    return [Ob('O2.1-helper-types-positions', 'helper types are collected wherever a value of the type occurs: let / if / match arm / match default / while / call / return', ob_helper_types, ('quick', 'thorough'), 5, dict(top=['TTuple', 'TRef', 'TVec'], inner=['TTuple', 'TRef', 'TInt32'], depth=2, vec_len=(1, 1), positions=tuple(POSITIONS))),
+            Ob('O2.1-helper-types-d2', 'every tuple / reference type inside a signature type is collected for declaration: depth 2', ob_helper_types, ('quick', 'thorough'), 5, dict(top=comp, inner=comp + ['TInt32'], depth=2, vec_len=(1, 1))),
             Ob('O2.1-helper-types-d3', 'same, depth 3 (inner constructors tuple / Vec / Ref / array)', ob_helper_types, ('thorough',), 60, dict(top=comp, inner=['TTuple', 'TVec', 'TRef', 'TArray', 'TInt32'], depth=3, vec_len=(1, 1)))]
 
 META = {
